@@ -172,7 +172,8 @@ PROPS = {
                      "words of 40..330 characters), followed by the standard arguments the flags add (-h, --help, --help-arg <key>, "
                      "--help-short/-long, --print-hidden/-deprecated, --list-arg-vars/-groups, --verbose-args, --endvalues); program-name file / argument file present, absent, a directory, "
                      "unreadable, HOME unset, with content from valid lines, mutated lines, random bytes incl. NUL, lines of 1000..4000 "
-                     "characters, with or without final newline; environment variable absent, empty, valid or hostile; reads chunked "
+                     "characters, lines that name an argument file (itself, the other file, a missing file, a directory), with or without "
+                     "final newline; environment variable absent, empty, valid or hostile; reads chunked "
                      "to 1..64 bytes, short reads, EINTR, EIO at the n-th read, EACCES/ENOENT/EISDIR at the n-th open. Each evaluation "
                      "runs under ASan + UBSan with a step budget of 3*10^7 control-flow edges; exit()/abort()/assert are trapped. "
                      "Non-trivial: the evaluation opened a source file or read a non-empty environment variable. Distinct: distinct "
